@@ -264,7 +264,7 @@ def step (_ : Unit) (ws : List String) : Unit × String :=
                 | .called i =>
                   let flag := if wrap = "1" ∨ kind ≠ "ref" then "-" else if i.isBorrowed then "b" else "c"
                   let res :=
-                    if hk = "same" then hexOfBytes (bodyTypedSlice t i.elems)
+                    if hk = "same" ∨ hk = "slow" then hexOfBytes (bodyTypedSlice t i.elems)
                     else if hk = "bytes" then hexOfBytes (encodeTypedRaw ⟨2, 0⟩ i.elems.flatten.length i.elems.flatten)
                     else if hk = "err" then "err 4096"
                     else "panic"
